@@ -84,6 +84,24 @@ pub fn tmpl_iter_map_collect_result<A, B, F: FnMut(&A) -> Result<B, AnyhowError>
             r matches Err(_) ==> exists|i: int, e: AnyhowError| 0 <= i < v@.len() && #[trigger] f.ensures((&v@[i],), Err(e)),
 { unimplemented!() }
 
+// A2: bit_vec::BitVec::{to_bytes, from_bytes, truncate} as documented: bit i lives in byte i/8 at position 7 - i%8 (MSB first),
+// to_bytes pads the last byte with zeros, from_bytes yields 8 bits per byte, truncate keeps a prefix
+pub uninterp spec fn byte_bit(b: u8, k: int) -> bool;          // bit k (0 = most significant) of a byte
+pub uninterp spec fn bv_bytes(s: Seq<bool>) -> Seq<u8>;        // BitVec::to_bytes as a function of the bits
+pub broadcast axiom fn bv_bytes_spec(s: Seq<bool>)
+    ensures (#[trigger] bv_bytes(s)).len() == (s.len() + 7) / 8,
+            forall|i: int| 0 <= i < s.len() ==> byte_bit(bv_bytes(s)[i / 8], i % 8) == #[trigger] s[i];
+impl BitVec {
+    #[verifier::external_body]
+    pub fn to_bytes(&self) -> (r: Vec<u8>) ensures r@ == bv_bytes(self@) { unimplemented!() }
+    #[verifier::external_body]
+    pub fn from_bytes(bytes: &[u8]) -> (r: Self)
+        ensures r@.len() == 8 * bytes@.len(), forall|i: int| 0 <= i < r@.len() ==> #[trigger] r@[i] == byte_bit(bytes@[i / 8], i % 8) { unimplemented!() }
+    #[verifier::external_body]
+    pub fn truncate(&mut self, len: usize)
+        ensures final(self)@ == (if len < old(self)@.len() { old(self)@.take(len as int) } else { old(self)@ }) { unimplemented!() }
+}
+
 // A3: byte codecs of the cryptographic leaf types (ByteFmt of keccak digests and of BLS keys/signatures via blst) round-trip
 pub trait ByteFmt: Sized {
     spec fn bytes(&self) -> Seq<u8>;
@@ -115,12 +133,6 @@ impl ProtoFmt for Signature {              // A3: keys/signature.rs
 impl ProtoFmt for AggregateSignature {     // A3: keys/aggregate_signature.rs
     type Proto = proto::AggregateSignature;
     uninterp spec fn enc(&self) -> proto::AggregateSignature;
-    #[verifier::external_body] fn read(r: &Self::Proto) -> (res: Result<Self, AnyhowError>) { unimplemented!() }
-    #[verifier::external_body] fn build(&self) -> (p: Self::Proto) { unimplemented!() }
-}
-impl ProtoFmt for BitVec {                 // A2: std_conv.rs, bit_vec::{from_bytes, to_bytes, truncate} (bounded Kani twin: group bitvec)
-    type Proto = proto::std::BitVector;
-    uninterp spec fn enc(&self) -> proto::std::BitVector;
     #[verifier::external_body] fn read(r: &Self::Proto) -> (res: Result<Self, AnyhowError>) { unimplemented!() }
     #[verifier::external_body] fn build(&self) -> (p: Self::Proto) { unimplemented!() }
 }
@@ -262,6 +274,21 @@ def build(repo):
             Phase::Commit => proto::phase_v2::T::Commit(proto::std::Void {}),
             Phase::Timeout => proto::phase_v2::T::Timeout(proto::std::Void {}),
         }) }""")
+    U.trait_impl(F_STD, "impl ProtoFmt for bit_vec::BitVec", header_subs=HS + [("bit_vec::BitVec", "BitVec", None), ("proto::std::BitVector", "proto::std::BitVector", None)],
+                 extra="    open spec fn enc(&self) -> proto::std::BitVector {\n        proto::std::BitVector { size: Some(self@.len() as u64), bytes: Some(vec_of(bv_bytes(self@))) }\n    }",
+                 fns=dict(read=dict(header_subs=HS, rules_=RULES, ret="res", proof_at_start=BU + " broadcast use bv_bytes_spec, bitvec_ext;",
+                                    subs=[("Self::from_bytes(required(&r.bytes).context(())?)", "Self::from_bytes(required(&r.bytes).context(())?.as_slice())   /* R-std: &Vec<u8> -> &[u8] */")],
+                                    post_subs=[("Ok(this)", """proof {
+            assert forall|x: BitVec| #[trigger] x.enc() == *r implies this == x by {
+                assert(r.bytes->Some_0@ == bv_bytes(x@));
+                assert(this@.len() == x@.len());
+                assert forall|i: int| 0 <= i < x@.len() implies this@[i] == x@[i] by {}
+                assert(this@ =~= x@);
+            }
+        }
+        Ok(this)""")]),
+                          build=dict(header_subs=HS, rules_=RULES, ret="p", proof_at_start=BU,
+                                     subs=[("Self::Proto {", "proto::std::BitVector {", None)])))
     impl(U, Q.F_CONS2, "Signers", "proto::std::BitVector", "self.0.enc()")
     impl(U, Q.F_RC, "CommitQC", "proto::CommitQcv2",
          "proto::CommitQcv2 { msg: Some(self.message.enc()), signers: Some(self.signers.enc()), sig: Some(self.signature.enc()) }")
@@ -455,6 +482,6 @@ def build(repo):
     U.assume("R-proto: the prost message types are generated from the .proto files of /repo with prost's documented mapping "
              "(optional -> Option, repeated -> Vec, oneof -> Option<enum>, heck case conversion); prost's wire codec is outside the claim")
     U.assume("A3: ByteFmt of keccak digests and the ProtoFmt impls of PublicKey / Signature / AggregateSignature (blst) satisfy the round-trip contract")
-    U.assume("A2: ProtoFmt for bit_vec::BitVec (from_bytes / to_bytes / truncate) satisfies the round-trip contract")
+    U.assume("A2: bit_vec::BitVec::{to_bytes, from_bytes, truncate} behave as documented (MSB-first bit order, zero padding, 8 bits per byte, prefix)")
     U.assume("A1: Vec<u8> equality is content equality; anyhow::Context keeps Ok values; Option::transpose")
     return U
